@@ -292,7 +292,13 @@ def observe(net):
         xs[x.intersection_id] = {"incs": [{"id": i.incoming_id, "lanelets": sorted(i.incoming_lanelets),
                                            "right": sorted(i.successors_right), "straight": sorted(i.successors_straight),
                                            "left": sorted(i.successors_left), "left_of": i.left_of} for i in x.incomings],
-                                 "cross": sorted(x.crossings)}
+                                 "cross": sorted(x.crossings),
+                                 # the public lookup derived from the incoming elements (asked before and after every
+                                 # step, as a user - or the renderer - would)
+                                 "lookup": sorted(x.map_incoming_lanelets)}
+    net_lookup = sorted(net.map_inc_lanelets_to_intersections)
+    for x in xs.values():
+        x["net_lookup"] = net_lookup
     return {"lanelets": ls, "signs": {s.traffic_sign_id: payload(s, ("traffic_sign_id",)) for s in net.traffic_signs},
             "lights": {t.traffic_light_id: payload(t, ("traffic_light_id",)) for t in net.traffic_lights}, "inters": xs}
 
@@ -458,6 +464,13 @@ def judge(before, after, op, spec):
         if b["cross"] != flt(a["cross"], keepL):
             out.append(("intersection crossings: " + _what(b["cross"], keepL, "intersection"),
                         f"intersection {xi}: crossings {a['cross']} -> {b['cross']}"))
+        # the public lookups derived from the incoming elements name remaining lanelets only
+        for k, what in (("lookup", "Intersection.map_incoming_lanelets"),
+                        ("net_lookup", "LaneletNetwork.map_inc_lanelets_to_intersections")):
+            dangling = [z for z in b.get(k, []) if z not in keepL]
+            if dangling:
+                out.append((f"{what}: " + _what(dangling, keepL, "intersection"),
+                            f"intersection {xi}: {what} names {dangling}, remaining lanelets {sorted(keepL)}"))
         old = {i["id"]: i for i in a["incs"]}
         new = {i["id"]: i for i in b["incs"]}
         if not set(new) <= set(old) or len(new) != len(b["incs"]):
